@@ -225,10 +225,15 @@ PROPS = {
     },
     "C06": {
         "bins": ["e2e"],
-        "rule": "e2e: reset / stop / finish x {before data, mid-stream, after finish} x four roles x codes {0,63,64,16383,"
-                "16384,2^30-1,2^30,2^62-1,...} x both runtimes; non-trivial = distinct line",
-        "extracted_keys": [],
-        "trusted": ["quinn stream life-cycle (RESET_STREAM / STOP_SENDING / acknowledgement of FIN) is the specification record"],
+        "rule": "e2e: reset / stop / stop_late (a failing write first, a round trip, then write / stopped / finish again) / "
+                "finish x {before data, mid-stream, after finish} x four roles x codes {0,63,64,16383,"
+                "16384,2^30-1,2^30,2^62-1,...} x both runtimes; finish.retry against a stalled receiver; read.exact; the "
+                "expectations of stop / stop_late are the life-cycle model StreamLife.run on the op's schedule; "
+                "non-trivial = distinct line",
+        "extracted_keys": ["FINISH_AWAITS_STOPPED", "SEND_WRAPPER_CALLS", "RECV_WRAPPER_CALLS"],
+        "trusted": ["quinn stream life-cycle (RESET_STREAM / STOP_SENDING / acknowledgement of FIN; a stop reason stays "
+                    "until the stream is released) is the specification record StreamLife.Q, exercised against the real "
+                    "quinn by the e2e ops on every run"],
         "assumptions": ["a signal raised after the stream was finished and acknowledged has nothing left to act on"],
     },
 }
@@ -301,7 +306,9 @@ LEVEL_TEXT = {
            "reachable state of the worker's shutdown a closed queue implies a stored result (no missing result, no panic "
            "arm, four steps to completion); for every cause both kinds of call report the actual cause or a local close "
            "where the library itself shut the transport down; tied by the e2e termination matrix",
-    "C06": "Lean 4 theorems: every mapping arm of the stream API carries every 62-bit code unchanged, finish succeeds iff "
+    "C06": "Lean 4 theorems: a stop is sticky — after STOP_SENDING(c) every later write / finish / stopped() in any number "
+           "and order reports stopped(c) (stop_is_sticky, life-cycle model), given the extracted fact that each wrapper "
+           "method invokes only its own quinn operation; every mapping arm of the stream API carries every 62-bit code unchanged, finish succeeds iff "
            "acknowledged, no two outcomes conflated; quinn's life-cycle is the trusted record; tied by e2e signal matrix",
 }
 
